@@ -798,18 +798,21 @@ def gen_defaults(shard, nshards, tier, seed):
 
 
 def units(tier):
+    # few, larger shards in the quick tier: every shard is a fresh worker process and process
+    # start-up/tear-down costs more CPU here than a few hundred cases
+    q = tier == 'quick'
     return [
-        Unit('grammar', 'hyp', shards=16, examples={'quick': 150, 'thorough': 20000},
+        Unit('grammar', 'hyp', shards=4 if q else 16, examples={'quick': 600, 'thorough': 20000},
              strategy=strat_grammar, per_case_timeout=12.0),
-        Unit('expr', 'hyp', shards=16, examples={'quick': 40, 'thorough': 6000},
+        Unit('expr', 'hyp', shards=2 if q else 16, examples={'quick': 320, 'thorough': 6000},
              strategy=strat_expr, per_case_timeout=12.0),
-        Unit('mutation', 'hyp', shards=16, examples={'quick': 50, 'thorough': 8000},
+        Unit('mutation', 'hyp', shards=2 if q else 16, examples={'quick': 400, 'thorough': 8000},
              strategy=strat_mutation, per_case_timeout=12.0),
-        Unit('soup', 'hyp', shards=16, examples={'quick': 30, 'thorough': 6000},
+        Unit('soup', 'hyp', shards=2 if q else 16, examples={'quick': 240, 'thorough': 6000},
              strategy=strat_soup, per_case_timeout=12.0),
-        Unit('files', 'hyp', shards=16, examples={'quick': 50, 'thorough': 5000},
+        Unit('files', 'hyp', shards=2 if q else 16, examples={'quick': 400, 'thorough': 5000},
              strategy=strat_file, per_case_timeout=12.0),
-        Unit('defaults', 'enum', shards=8, gen=gen_defaults, per_case_timeout=120.0),
+        Unit('defaults', 'enum', shards=2 if q else 8, gen=gen_defaults, per_case_timeout=120.0),
     ]
 
 
